@@ -158,3 +158,23 @@ MODULES += [
               [("NTT_Goldilocks", n) for n in ["NTT_Goldilocks", "~NTT_Goldilocks", "computeR", "reversePermutation", "NTT_iters",
                                                "NTT", "INTT", "extendPol"]]},
 ]
+
+
+# ---------------------------------------------------------------- mpz-mode module ("mpz": True; DESIGN.CONV.md)
+# goldilocks_base_field_tools.hpp: the conversions.  `mpz_class` values are Lean `Int`s, `std::string` is `String`,
+# `int64_t` / `int32_t` are two's complement bit vectors (Model/TrMpz.lean; GMP's numeral parsing and printing are externs =
+# the hand model's `parseInt` / `toDigitsR`).  `fromU64` / `toU64` are the functions of Gen/Scalar.lean (reused, not re-emitted).
+# Bridge theorems to the hand model Model/Conv.lean: Lemmas/BridgeConv.lean, `C15_generated_*` in Props/C15.lean.
+def _conv_filter(d):
+    """not the array-printing overload of toString (string concatenation, std::to_string)"""
+    return not any("*" in c["type"]["qualType"] for c in d.get("inner", []) if c.get("kind") == "ParmVarDecl")
+
+
+MODULES += [
+    {"name": "ConvGen", "ns": "Gen.ConvGen", "ext": True, "mpz": True, "filter": _conv_filter,
+     "dispatch_prefix": "g_",      # `toS32` is also the name of a hand-written operation (harness/hand_dispatch.inc)
+     "imports": ["GoldilocksVerif.Isa.X86", "GoldilocksVerif.Model.Region", TRRT, "GoldilocksVerif.Model.TrMpz",
+                 "GoldilocksVerif.Gen.Scalar"],
+     "roots": [("Goldilocks", n) for n in ["fromU64", "fromS64", "fromS32", "fromString", "fromScalar",
+                                           "toU64", "toS64", "toS32", "toString"]]},
+]
